@@ -133,23 +133,33 @@ void harness(void) { ghost_reset(); Core* h; Start(h); VF_CANARY("end"); }
 
     # ---- Promise::Set / ~Promise ------------------------------------------------------------------------------------
     b = find_body(repo, F_PROM, r'void\s+Set\s*\(\s*Args\s*&&\s*\.\.\.\s*args\s*\)\s*&&', 'Promise::Set')
-    pre = [(r'sizeof\.\.\.\(Args\)\s*==\s*0', 'NO_ARGS', 0), (r'_core->Store\(\s*std::in_place\s*\)', 'Store(self->_core, RS_Value, 0)', 0),
-           (r'_core->Store\(\s*std::forward<Args>\(args\)\.\.\.\s*\)', 'Store(self->_core, a_state, a_tag)', 0),
+    # the value is constructed from user arguments inside Store: that construction may THROW (Set is not noexcept); the exception leaves Set at that point (recipe: `if (g_threw) return;` after the call)
+    pre = [(r'sizeof\.\.\.\(Args\)\s*==\s*0', 'NO_ARGS', 0), (r'(\b_?core)->Store\(\s*std::in_place\s*\)\s*;', r'Store(PCORE(\1), RS_Value, 0);', 0),
+           (r'(\b_?core)->Store\(\s*std::forward<Args>\(args\)\.\.\.\s*\)\s*;', r'{ StoreT(PCORE(\1), a_state, a_tag); if (g_threw) return; }', 0),
            (r'core->template\s+SetResult<false>\(\)', 'SetResult(core)', 0), (r'YACLIB_ASSERT\(Valid\(\)\)', 'REPO_ASSERT(self->_core != 0)', 0)]
     c = rw('Promise::Set', pre=pre).rewrite(b.text)
     for noargs in (0, 1):
-        src = COMMON + '#define NO_ARGS %d\n' % noargs + '''void Set(Handle* self, unsigned char a_state, unsigned long a_tag)
-__CPROVER_requires(__CPROVER_is_fresh(self, sizeof(*self)) && self->_core != 0 && g.stores == 0 && g.set_results == 0 && g.loops == 0)
-__CPROVER_assigns(self->_core, g.stores, g.t_store, g.clock, g.store_state, g.store_tag, g.set_results, g.t_set_result, g.loops, g.loop_prev, g.loop_curr)
+        src = COMMON + '#define NO_ARGS %d\n' % noargs + '''unsigned char g_threw;
+#define PCORE(x) (x)
+/* Store of a value built from user arguments: either it is stored, or the construction throws and nothing was stored */
+void StoreT(Core* c, unsigned char state, unsigned long tag)
+__CPROVER_requires(c != 0 && g.stores == 0 && g.set_results == 0)
+__CPROVER_assigns(g.stores, g.t_store, g.clock, g.store_state, g.store_tag, g_threw)
+__CPROVER_ensures(g_threw <= 1 && (g_threw ? (g.stores == 0 && g.clock == OLD(g.clock)) : (g.stores == 1 && g.store_state == state && g.store_tag == tag && g.t_store == OLD(g.clock) && g.clock == OLD(g.clock) + 1)));
+void Set(Handle* self, unsigned char a_state, unsigned long a_tag)
+__CPROVER_requires(__CPROVER_is_fresh(self, sizeof(*self)) && self->_core != 0 && g.stores == 0 && g.set_results == 0 && g.loops == 0 && !g_threw)
+__CPROVER_assigns(self->_core, g.stores, g.t_store, g.clock, g.store_state, g.store_tag, g.set_results, g.t_set_result, g.loops, g.loop_prev, g.loop_curr, g_threw)
 /* post Promise::Set (C01): Store(args) precedes SetResult, each exactly once; whatever SetResult hands back (the attached continuation) is driven by Loop with the
    fulfilled core as caller; the promise is left invalid */
-__CPROVER_ensures(g.stores == 1 && g.set_results == 1 && g.t_store < g.t_set_result && self->_core == 0)
-__CPROVER_ensures(NO_ARGS ? (g.store_state == RS_Value) : (g.store_state == a_state && g.store_tag == a_tag))
-__CPROVER_ensures(g.loops == 1 && g.loop_prev == OLD(self->_core) && g.loop_curr == g.sr_ret)
+__CPROVER_ensures(!g_threw ==> (g.stores == 1 && g.set_results == 1 && g.t_store < g.t_set_result && self->_core == 0))
+/* ... and if constructing the value throws, nothing was published and the Promise STILL OWNS its core (it stays valid: its destructor delivers StopError, or Set can be retried) - no completion is lost */
+__CPROVER_ensures(g_threw ==> (g.stores == 0 && g.set_results == 0 && g.loops == 0 && self->_core == OLD(self->_core)))
+__CPROVER_ensures(!g_threw ==> (NO_ARGS ? (g.store_state == RS_Value) : (g.store_state == a_state && g.store_tag == a_tag)))
+__CPROVER_ensures(!g_threw ==> (g.loops == 1 && g.loop_prev == OLD(self->_core) && g.loop_curr == g.sr_ret))
 {''' + c + '''}
-void harness(void) { ghost_reset(); Handle* p; Set(p, nondet_uint(), nondet_ulong()); VF_CANARY("end"); }
+void harness(void) { ghost_reset(); g_threw = 0; Handle* p; Set(p, nondet_uint(), nondet_ulong()); if (g_threw) VF_CANARY("construction threw"); else VF_CANARY("fulfilled"); }
 '''
-        job('Promise.Set.noargs%d' % noargs, b, src, 'Set', ['Store', 'SetResult', 'Loop'])
+        job('Promise.Set.noargs%d' % noargs, b, src, 'Set', ['Store', 'StoreT', 'SetResult', 'Loop'], canaries=1 if noargs else 2)
     b = find_body(repo, F_PROM, r'~Promise\s*\(\s*\)\s*noexcept', 'Promise::~Promise')
     c = rw('~Promise', pre=[(r'Valid\(\)', '(self->_core != 0)', 0), (r'this->Set\(\s*StopTag\{\}\s*\)', 'Set(self, RS_Error, TAG_STOP)', 0)]).rewrite(b.text)
     src = COMMON + '''unsigned g_sets; unsigned char g_set_state; unsigned long g_set_tag;
@@ -363,7 +373,7 @@ void harness(void) { ghost_reset(); Core* a; Core* b; g_attached = 0; CallInline
     job('UniqueCore.CallInline', b, src, 'CallInline', ['SetCallback', 'Here'], canaries=2)
     retire_prelude = '''unsigned long g_ref;
 unsigned long GetRef(Core* c) __CPROVER_assigns() __CPROVER_ensures(RET == g_ref && g_ref >= 1);
-static inline Res take(Core* c, int move) { __CPROVER_assert(g.decrefs == 0, "C03: the value is read before the reference is dropped"); Res r = c->_result;
+static inline Res take(Core* c, int move) { __CPROVER_assert(g.decrefs == 0, "C03,C06,C09: the value is read before this holder drops its reference (afterwards another holder may be the last one and move it out)"); Res r = c->_result;
   if (move) { g.moves++; g.t_move = g.clock++; c->_result.moved_from = 1; } else g.copies++; return r; }
 #define MOVE_GET(c) take(c, 1)
 #define CONST_GET(c) take(c, 0)
